@@ -18,6 +18,7 @@ import PS.Proofs.CfgBuild
 import PS.Proofs.CfgPrograms
 import PS.Proofs.CfgInfinite
 import PS.Proofs.CfgInfiniteDepth
+import PS.Proofs.CfgInfiniteFuel
 namespace PS.G
 open PS
 
@@ -719,6 +720,87 @@ theorem finding_C01_infinite_programs :
     bounded GI5 2 GI5.start = true ∧ lang GI5 2 GI5.start = [fTrue] ∧
     ((buildTable { P5 with maxDepth := 5 } 10).bind programs) = some 1 :=
   ⟨eq_some_getD _ _ (by decide), by decide, by decide, by decide, by decide⟩
+
+/-- **Termination of `CFG.infinite` for `n_gram ≥ 0`** (fuel adequacy): the non-terminals that can
+    be pushed lie in a finite universe — a type among the argument types of the applicable symbols
+    (or the requested return type), an n-gram of at most `n_gram` (symbol, argument index) pairs,
+    depth 0 — and an iteration pushes at most `kidBound P` of them, so the worklist loop ends
+    within `infFuel P = 1 + |universe| · (kidBound P + 1)` iterations; more fuel does not change
+    the table. -/
+theorem C01_infinite_terminates (P : Params) (hn : 0 ≤ P.nGram) (fuel : Nat) (hf : infFuel P ≤ fuel) :
+    ∃ tbl, closureWith (ruleSetInf P) fuel [startNT P] [] = some tbl ∧
+      ∀ fuel', fuel ≤ fuel' → closureWith (ruleSetInf P) fuel' [startNT P] [] = some tbl := by
+  have h := infinite_terminates P hn fuel hf
+  cases hc : closureWith (ruleSetInf P) fuel [startNT P] [] with
+  | none => rw [hc] at h; cases h
+  | some tbl =>
+    refine ⟨tbl, rfl, ?_⟩
+    intro fuel' hle
+    obtain ⟨d, rfl⟩ := Nat.exists_eq_add_of_le hle
+    induction d with
+    | zero => exact hc
+    | succ d ih => exact closureWith_mono _ _ _ _ _ (ih (Nat.le_add_right _ _))
+
+open Example in
+/-- non-vacuity: `infFuel P3 = 21974` is adequate (the loop of `P3` actually ends after 17
+    iterations, not after 16) -/
+example : 0 ≤ P3.nGram ∧ infFuel P3 = 21974 ∧
+    (closureWith (ruleSetInf P3) 17 [startNT P3] []).isSome = true ∧
+    closureWith (ruleSetInf P3) 16 [startNT P3] [] = none :=
+  ⟨by decide, by decide +kernel, by decide, by decide⟩
+
+/-- … hence the answer of the model of `CFG.infinite` does not depend on the fuel once adequate. -/
+theorem C01_infinite_fuel_indep (P : Params) (hn : 0 ≤ P.nGram) (fuel : Nat) (hf : infFuel P ≤ fuel) :
+    buildTableInf P fuel = buildTableInf P (infFuel P) := by
+  obtain ⟨tbl, hc, hall⟩ := C01_infinite_terminates P hn (infFuel P) (Nat.le_refl _)
+  have h := hall fuel hf
+  unfold buildTableInf
+  rw [h, hc]
+
+open Example in
+example : infFuel P3 ≤ 30000 ∧ buildTableInf P3 30000 = buildTableInf P3 (infFuel P3) :=
+  ⟨by decide +kernel, C01_infinite_fuel_indep P3 (by decide) 30000 (by decide +kernel)⟩
+
+/-- **C01 for `CFG.infinite` — total form** (`n_gram ≥ 0`, adequate fuel): either the constructor
+    returns a grammar whose members are exactly the well-typed terms of every depth, or it fails
+    and there is no well-typed term at all. -/
+theorem C01_infinite (P : Params) (hn : 0 ≤ P.nGram) (fuel : Nat) (hf : infFuel P ≤ fuel) :
+    (∃ G, buildTableInf P fuel = some G ∧
+      ∀ t, contains G t = wtI P (effParent P) t none P.request.returns) ∨
+    (buildTableInf P fuel = none ∧ ∀ t, wtI P (effParent P) t none P.request.returns = false) := by
+  obtain ⟨tbl, hc, _⟩ := C01_infinite_terminates P hn fuel hf
+  cases hb : buildTableInf P fuel with
+  | some G => exact Or.inl ⟨G, rfl, C01_infinite_lang P fuel G hb⟩
+  | none => exact Or.inr ⟨rfl, C01_infinite_empty P fuel (by rw [hc]; simp) hb⟩
+
+open Example in
+/-- non-vacuity: both branches occur -/
+example : 0 ≤ P3.nGram ∧ (buildTableInf P3 (infFuel P3)).isSome = true ∧
+    0 ≤ P4.nGram ∧ buildTableInf P4 (infFuel P4) = none :=
+  ⟨by decide, by decide +kernel, by decide, by decide +kernel⟩
+
+/-- **Documented exclusion `n_gram < 0`**: without a depth bound an unbounded n-gram keeps growing,
+    so there are infinitely many non-terminals and the worklist loop of `CFG.infinite` does not
+    end — on the DSL {neg : int -> int, 1 : int} with `n_gram = -1` the model returns no table
+    whatever the fuel (the implementation loops forever; the generator of the harness never
+    produces this combination). -/
+theorem C01_infinite_loops_neg (fuel : Nat) :
+    NegExample.Pneg.nGram < 0 ∧
+    closureWith (ruleSetInf NegExample.Pneg) fuel [startNT NegExample.Pneg] [] = none ∧
+    buildTableInf NegExample.Pneg fuel = none := by
+  have h := neg_loops_aux fuel [] 0 [] (fun k hk => by cases hk)
+  refine ⟨by decide, h, ?_⟩
+  unfold buildTableInf
+  change (match closureWith (ruleSetInf NegExample.Pneg) fuel [(NegExample.int, (([], 0), ()))] [] with
+    | none => none
+    | some tbl => _) = none
+  rw [h]
+
+/-- non-vacuity: with the same DSL and `n_gram = 2` the loop ends and the grammar contains
+    `(neg (neg 1))` -/
+example : ((buildTableInf { NegExample.Pneg with nGram := 2 } 10).map (fun G =>
+    contains G (.node NegExample.negS [.node NegExample.negS [.node NegExample.oneS []]]))) = some true := by
+  decide
 
 /-! ### non-vacuity and the recorded finding -/
 open Example in
